@@ -4,6 +4,7 @@ package load
 import (
 	"fmt"
 	"go/token"
+	"go/types"
 	"os"
 	"sort"
 	"strings"
@@ -11,6 +12,8 @@ import (
 	"golang.org/x/tools/go/packages"
 	"golang.org/x/tools/go/ssa"
 	"golang.org/x/tools/go/ssa/ssautil"
+
+	"verif/tools/norm"
 )
 
 const ModPath = "github.com/microcosm-cc/bluemonday"
@@ -28,15 +31,19 @@ type Program struct {
 	Cmds  []*packages.Package
 	Env   []string
 	Flags []string
+	// NormLog: what the normaliser inlined or declined to inline; Overlay: the normalised sources (nil if unchanged).
+	NormLog []string
+	Overlay map[string][]byte
 }
 
 // Config selects the build configuration.
 type Config struct {
-	Repo  string
-	GOOS  string
+	Repo   string
+	GOOS   string
 	GOARCH string
-	Tags  string
-	NoSSA bool
+	Tags   string
+	NoSSA  bool
+	NoNorm bool
 }
 
 func env(cfg Config) []string {
@@ -62,22 +69,60 @@ func env(cfg Config) []string {
 	return out
 }
 
-// Load loads the module at cfg.Repo. Any load or type error is returned as an error
-// (a check must then fail, never pass).
-func Load(cfg Config) (*Program, error) {
-	mode := packages.LoadAllSyntax
+// Anchors are the unexported functions the rules know by role; they are never inlined by the normaliser.
+// Every other unexported function or method of the two library packages is a helper and is inlined into its callers.
+var Anchors = map[string]bool{
+	ModPath + ".init": true, ModPath + ".addDefaultElementsWithoutAttrs": true, ModPath + ".addDefaultSkipElementContent": true,
+	ModPath + ".parseQuery": true, ModPath + ".encodeQueries": true, ModPath + ".sanitizedURL": true,
+	ModPath + ".sanitizeWithBuff": true, ModPath + ".sanitize": true, ModPath + ".sanitizeAttrs": true, ModPath + ".sanitizeStyles": true,
+	ModPath + ".allowNoAttrs": true, ModPath + ".validURL": true, ModPath + ".linkable": true, ModPath + ".hasRelToken": true,
+	ModPath + ".stringInSlice": true, ModPath + ".isDataAttribute": true, ModPath + ".removeUnicode": true, ModPath + ".matchRegex": true,
+	ModPath + ".normaliseElementName": true,
+	ModPath + "/css.multiSplit":       true, ModPath + "/css.recursiveCheck": true, ModPath + "/css.in": true, ModPath + "/css.splitValues": true,
+}
+
+// AnchorSpecs: receiver, signature and (where a signature is shared) a marker for every anchor — used to find an
+// anchor again after it was renamed.
+var AnchorSpecs = []norm.AnchorSpec{
+	{Pkg: ModPath, Name: "init", Recv: "Policy", Sig: "()", Marker: "initialized"},
+	{Pkg: ModPath, Name: "addDefaultElementsWithoutAttrs", Recv: "Policy", Sig: "()", Marker: "abbr"},
+	{Pkg: ModPath, Name: "addDefaultSkipElementContent", Recv: "Policy", Sig: "()", Marker: "noscript"},
+	{Pkg: ModPath, Name: "parseQuery", Sig: "(string) ([]bluemonday.Query, error)"},
+	{Pkg: ModPath, Name: "encodeQueries", Sig: "([]bluemonday.Query) string"},
+	{Pkg: ModPath, Name: "sanitizedURL", Sig: "(string) (string, error)"},
+	{Pkg: ModPath, Name: "sanitizeWithBuff", Recv: "Policy", Sig: "(io.Reader) *bytes.Buffer"},
+	{Pkg: ModPath, Name: "sanitize", Recv: "Policy", Sig: "(io.Reader, io.Writer) error"},
+	{Pkg: ModPath, Name: "sanitizeAttrs", Recv: "Policy", Sig: "(string, []html.Attribute, map[string][]bluemonday.attrPolicy) []html.Attribute"},
+	{Pkg: ModPath, Name: "sanitizeStyles", Recv: "Policy", Sig: "(html.Attribute, string) html.Attribute"},
+	{Pkg: ModPath, Name: "allowNoAttrs", Recv: "Policy", Sig: "(string) bool"},
+	{Pkg: ModPath, Name: "validURL", Recv: "Policy", Sig: "(string) (string, bool)"},
+	{Pkg: ModPath, Name: "matchRegex", Recv: "Policy", Sig: "(string) (map[string][]bluemonday.attrPolicy, bool)"},
+	{Pkg: ModPath, Name: "linkable", Sig: "(string) bool", Marker: "blockquote"},
+	{Pkg: ModPath, Name: "isDataAttribute", Sig: "(string) bool", Marker: "dataAttribute"},
+	{Pkg: ModPath, Name: "hasRelToken", Sig: "(string, string) bool"},
+	{Pkg: ModPath, Name: "stringInSlice", Sig: "(string, []string) bool"},
+	{Pkg: ModPath, Name: "removeUnicode", Sig: "(string) string", Marker: "cssUnicodeChar"},
+	{Pkg: ModPath, Name: "normaliseElementName", Sig: "(string) string", Marker: "QuoteToASCII"},
+	{Pkg: ModPath + "/css", Name: "multiSplit", Sig: "(string, ...string) []string"},
+	{Pkg: ModPath + "/css", Name: "recursiveCheck", Sig: "([]string, []func(string) bool) bool"},
+	{Pkg: ModPath + "/css", Name: "in", Sig: "([]string, []string) bool"},
+	{Pkg: ModPath + "/css", Name: "splitValues", Sig: "(string) []string"},
+}
+
+func loadPkgs(cfg Config, mode packages.LoadMode, overlay map[string][]byte) ([]*packages.Package, *packages.Config, error) {
 	pc := &packages.Config{
-		Mode:  mode,
-		Dir:   cfg.Repo,
-		Env:   env(cfg),
-		Tests: false,
+		Mode:    mode,
+		Dir:     cfg.Repo,
+		Env:     env(cfg),
+		Tests:   false,
+		Overlay: overlay,
 	}
 	if cfg.Tags != "" {
 		pc.BuildFlags = []string{"-tags=" + cfg.Tags}
 	}
 	pkgs, err := packages.Load(pc, "./...")
 	if err != nil {
-		return nil, fmt.Errorf("packages.Load: %w", err)
+		return nil, pc, fmt.Errorf("packages.Load: %w", err)
 	}
 	var errs []string
 	packages.Visit(pkgs, nil, func(p *packages.Package) {
@@ -90,9 +135,139 @@ func Load(cfg Config) (*Program, error) {
 		if len(errs) > 10 {
 			errs = errs[:10]
 		}
-		return nil, fmt.Errorf("load/type errors: %s", strings.Join(errs, "; "))
+		return nil, pc, fmt.Errorf("load/type errors: %s", strings.Join(errs, "; "))
 	}
-	P := &Program{Repo: cfg.Repo, Env: pc.Env, Flags: pc.BuildFlags, SSA: map[string]*ssa.Package{}}
+	return pkgs, pc, nil
+}
+
+// normalise computes the inlining overlay (see package norm).  Failures never fail the load: a site that cannot be
+// inlined is simply left as a call.
+func normalise(cfg Config) (map[string][]byte, []string) {
+	var log []string
+	cheap := packages.NeedName | packages.NeedFiles | packages.NeedCompiledGoFiles | packages.NeedImports | packages.NeedTypes | packages.NeedSyntax | packages.NeedTypesInfo | packages.NeedTypesSizes
+	pkgs, _, err := loadPkgs(cfg, cheap, nil)
+	if err != nil {
+		return nil, []string{"normaliser: initial load failed: " + err.Error()}
+	}
+	lib := func(ps []*packages.Package) []*packages.Package {
+		var out []*packages.Package
+		for _, p := range ps {
+			if p.PkgPath == ModPath || p.PkgPath == ModPath+"/css" {
+				out = append(out, p)
+			}
+		}
+		return out
+	}
+	src := map[string][]byte{}
+	for _, p := range lib(pkgs) {
+		for _, f := range p.CompiledGoFiles {
+			b, err := os.ReadFile(f)
+			if err != nil {
+				return nil, []string{"normaliser: " + err.Error()}
+			}
+			src[f] = b
+		}
+	}
+	isAnchor := func(f *types.Func) bool {
+		if f.Pkg() == nil {
+			return true
+		}
+		return Anchors[f.Pkg().Path()+"."+f.Name()]
+	}
+	counter := 0
+	changed := false
+	// step 0: anchors that were renamed get their canonical name back
+	if edits, lg := norm.ResolveAliases(lib(pkgs), AnchorSpecs, &counter); len(edits) > 0 || len(lg) > 0 {
+		log = append(log, lg...)
+		if len(edits) > 0 {
+			newSrc, _, _ := norm.Apply(src, edits, nil)
+			if np, _, err := loadPkgs(cfg, cheap, newSrc); err == nil {
+				src, pkgs, changed = newSrc, np, true
+			} else {
+				log = append(log, "normaliser: renaming anchors back did not type-check ("+err.Error()+"); names left as written")
+			}
+		}
+	}
+	for round := 1; round <= 6; round++ {
+		edits, lg := norm.Plan(lib(pkgs), src, isAnchor, &counter)
+		for _, l := range lg {
+			if strings.HasPrefix(l, "not inlined") {
+				log = append(log, l)
+			}
+		}
+		if len(edits) == 0 {
+			break
+		}
+		skip := map[int]bool{}
+		newSrc, used, lg2 := norm.Apply(src, edits, skip)
+		log = append(log, lg2...)
+		np, _, err := loadPkgs(cfg, cheap, newSrc)
+		if err != nil {
+			// find the groups that do not type-check, one at a time
+			log = append(log, fmt.Sprintf("normaliser: round %d did not type-check as a whole (%v); retrying site by site", round, err))
+			good := map[int]bool{}
+			for _, g := range used {
+				try := map[int]bool{}
+				for _, u := range used {
+					if u != g && !good[u] {
+						try[u] = true
+					}
+				}
+				ts, _, _ := norm.Apply(src, edits, try)
+				if _, _, e2 := loadPkgs(cfg, cheap, ts); e2 == nil {
+					good[g] = true
+				} else {
+					log = append(log, fmt.Sprintf("normaliser: site group %d left as a call (does not type-check inlined: %v)", g, e2))
+				}
+			}
+			for _, u := range used {
+				if !good[u] {
+					skip[u] = true
+				}
+			}
+			if len(good) == 0 {
+				break
+			}
+			newSrc, used, _ = norm.Apply(src, edits, skip)
+			np, _, err = loadPkgs(cfg, cheap, newSrc)
+			if err != nil {
+				log = append(log, "normaliser: giving up this round: "+err.Error())
+				break
+			}
+		}
+		siteOf := map[int]string{}
+		for _, e := range edits {
+			siteOf[e.Group()] = e.Site
+		}
+		for _, u := range used {
+			log = append(log, fmt.Sprintf("inlined (round %d): %s", round, siteOf[u]))
+		}
+		src, pkgs, changed = newSrc, np, true
+	}
+	if !changed {
+		return nil, log
+	}
+	return src, log
+}
+
+// Load loads the module at cfg.Repo. Any load or type error is returned as an error
+// (a check must then fail, never pass).
+func Load(cfg Config) (*Program, error) {
+	var overlay map[string][]byte
+	var normLog []string
+	if !cfg.NoNorm {
+		overlay, normLog = normalise(cfg)
+	}
+	pkgs, pc, err := loadPkgs(cfg, packages.LoadAllSyntax, overlay)
+	if err != nil && overlay != nil {
+		normLog = append(normLog, "normaliser: normalised program failed to load ("+err.Error()+"); analysing the program as written")
+		overlay = nil
+		pkgs, pc, err = loadPkgs(cfg, packages.LoadAllSyntax, nil)
+	}
+	if err != nil {
+		return nil, err
+	}
+	P := &Program{Repo: cfg.Repo, Env: pc.Env, Flags: pc.BuildFlags, SSA: map[string]*ssa.Package{}, NormLog: normLog, Overlay: overlay}
 	sort.Slice(pkgs, func(i, j int) bool { return pkgs[i].PkgPath < pkgs[j].PkgPath })
 	for _, p := range pkgs {
 		if !strings.HasPrefix(p.PkgPath, ModPath) {
